@@ -4,7 +4,7 @@ ENGINES = [
     {
         "name": "symx",
         "path": "/verif/symx",
-        "serves_properties": ["C01", "C02", "C03", "C04", "C05", "C06", "C07", "C08", "C09", "C12", "C13", "C16", "C17", "C18", "C19"],
+        "serves_properties": ["C01", "C02", "C03", "C04", "C05", "C06", "C07", "C08", "C09", "C10", "C11", "C12", "C13", "C16", "C17", "C18", "C19"],
         "kind_free_text": "own symbolic executor: geoh5py's real functions run under CPython with the module-global "
         "`np` (and, for file paths, `h5py`) rebound to z3-backed models; re-execution DFS forks on symbolic "
         "branches; obligations are z3 validity queries; counterexamples are replayed on real numpy/h5py",
@@ -262,6 +262,35 @@ CLAIMED["C19"] = _symx(
 )
 CLAIMED["C19"]["design_ref"] = "DESIGN.md section 12.15"
 
+CLAIMED["C10"] = _symx(
+    "C10",
+    "symx path exploration (z3 feasibility only): the sequence of API calls on a workspace opened with mode 'r' is a symbolic choice "
+    "from an alphabet of 25 (one explored path per sequence); the bytes and modification time of the file, the handle's mode and "
+    "the raise / no-raise verdict of each call are observed on the real code; counterexamples replayed on the real code",
+    "bounded model checking, partial and weak (nothing value-level): for all sequences of 2 (thorough: 3) calls from {20 mutating calls: "
+    "setters, rename, move, copies inside the workspace, removals, add_data, property-group edits, metadata, type and value-map "
+    "changes, creations; 5 reading calls: read every attribute, copy to another workspace, copy to a monitoring directory, load a "
+    "ui.json naming the file, re-open in mode 'r'} on a file on disk: the bytes and the modification time of the file are unchanged, "
+    "the handle stays in mode 'r', a mutating call issued from a clean state fails with an error, the reading calls work.",
+    "trusted: h5py / the OS for honouring mode 'r'; the symx explorer for enumerating the sequences. Only the choice of the sequence is "
+    "symbolic",
+)
+CLAIMED["C10"]["design_ref"] = "DESIGN.md section 12.17"
+CLAIMED["C11"] = _symx(
+    "C11",
+    "symx path exploration with symbolic payloads: two operations from the C01 alphabet inside a `with Workspace(...)` block whose ending "
+    "(normal exit, exception after k operations, explicit close, re-open in mode 'r') is a symbolic choice; z3 validity of 'tree read "
+    "by a fresh Workspace == live tree when the last operation completed', term by term; handle state and closed-file errors "
+    "observed on the real code; counterexamples replayed on real numpy/h5py",
+    "bounded model checking, partial: first operation (9) x second operation (9) x ending (6) on a stored tree with symbolic vertices "
+    "and values: after the block the workspace reports its file closed and keeps no open handle; adding data / renaming through a "
+    "handle obtained before the close and fetching children raise the dedicated closed-file error; the file opens again and holds "
+    "exactly the entities, geometry, values and flags the live workspace showed when the last operation returned; re-opening the "
+    "same workspace object restores access. Abort points are between operations (as in the statement); process kills are out of scope.",
+    _SYMX_NOTE + "; that h5py releases the OS handle when its File object is closed is trusted",
+)
+CLAIMED["C11"]["design_ref"] = "DESIGN.md section 12.17"
+
 _XH_NOTE = (
     "trusted: CrossHair 0.0.110 (symbolic execution of CPython code with z3) and its models of builtins; the harness "
     "functions call the real geoh5py kernels directly (no translation); holds only within the value bounds in the evidence"
@@ -325,9 +354,6 @@ CLAIMED["C06"] = {
 _NOT_BUILT = "check not built yet (planned, see DESIGN.md section 5)"
 
 NOT_APPLICABLE = {
-    "C10": "immutability is delivered by h5py's read-only handle and the mode string; quantifier is over programs "
-    "(~150 entry points), nothing value-level to solve",
-    "C11": "handle lifecycle and exception-abort points of a with-block are h5py/OS behaviour",
     "C20": "partner linkage is identity bookkeeping in metadata dictionaries persisted as JSON; configurations x "
     "histories over an object graph, no value-level kernel",
 }
